@@ -190,7 +190,7 @@ func appendSetHashBytes(val Value, buf *bytes.Buffer, marks ValueMarks) {
 			buf.WriteString(bf.String())
 			return
 		}
-		buf.WriteString(val.v.(*big.Float).String())
+		buf.WriteString(numberHashText(val.v.(*big.Float)))
 		return
 	case Bool:
 		if val.v.(bool) {
@@ -275,4 +275,17 @@ func appendSetHashBytes(val Value, buf *bytes.Buffer, marks ValueMarks) {
 
 	// should never get down here
 	panic(fmt.Sprintf("unsupported type %#v in set hash", val.ty))
+}
+
+// numberHashText returns a string that is the same for any two numbers that
+// rawNumberEqual considers equal.
+func numberHashText(f *big.Float) string {
+	if i, acc := f.Int(nil); acc == big.Exact {
+		return i.String()
+	}
+	s := f.Text('f', -1)
+	if s == "-0" {
+		return "0"
+	}
+	return s
 }
